@@ -86,7 +86,7 @@ def hankel_rank(m):
 TIMPORTS = ("From Coq Require Import List Arith Bool ZArith QArith Qcanon.\nImport ListNotations.\nFrom GV.lib Require Import Semiring BigSum.\nFrom GV.model Require Import Tzeng.")
 TDEFS = ("Definition tlook (l : list (nat * nat * nat * Qc)) (a i j : nat) : Qc := fold_right (fun e acc => match e with (a', i', j', w) => if Nat.eqb a a' && Nat.eqb i i' && Nat.eqb j j' then (w + acc)%Qc else acc end) 0%Qc l.\n"
          "Definition vlook (l : list (nat * Qc)) (i : nat) : Qc := fold_right (fun e acc => if Nat.eqb i (fst e) then (snd e + acc)%Qc else acc) 0%Qc l.\n"
-         "Definition decide (n : nat) (l : list (nat * nat * nat * Qc)) (d eta : list (nat * Qc)) : nat := match @counterexample QcFR (seq 0 n) (tlook l) (vlook d) (vlook eta) [0%nat; 1%nat] 60 with None => 2%nat | Some None => 0%nat | Some (Some _) => 1%nat end.\n")
+         "Definition decide (n : nat) (l : list (nat * nat * nat * Qc)) (d eta : list (nat * Qc)) : nat := match @counterexample QcFR (seq 0 n) (tlook l) (vlook d) (vlook eta) [0%nat; 1%nat; 2%nat] 60 with None => 2%nat | Some None => 0%nat | Some (Some _) => 1%nat end.\n")
 
 
 def model_stream(ctx, pairs):
@@ -130,12 +130,21 @@ def run(ctx):
     for _ in range(n):
         a = gen(ctx.rng)
         b, same = variant(ctx.rng, a) if ctx.rng.random() < 0.7 else (gen(ctx.rng), None)
+        if ctx.rng.random() < 0.3 and a["init"] and a["final"]:
+            # the second automaton additionally reads a symbol that does not occur in the first one (or vice versa)
+            a["nT"] = b["nT"] = 3
+            h = b if ctx.rng.random() < 0.7 else a
+            src = ctx.rng.choice(h["init"])[0] if h["init"] else 0
+            dst = ctx.rng.choice(h["final"])[0] if h["final"] else 0
+            h["arcs"].append([src, 2, dst, "1/8"])
+            F.substochastic(h)
+            ctx.dist("extra-symbol-in-" + ("second" if h is b else "first"))
         pairs.append((a, b))
     model = model_stream(ctx, pairs) if ok else {}
-    res = run_w([{"queries": [{"op": "equiv", "a": a, "b": b, "timeout": 20}, {"op": "min", "m": a, "xs": [list(x) for x in F.strings(2, 3)], "timeout": 20}]} for a, b in pairs])
+    res = run_w([{"queries": [{"op": "equiv", "a": a, "b": b, "timeout": 20}, {"op": "min", "m": a, "xs": [list(x) for x in F.strings(a["nT"], 3)], "timeout": 20}]} for a, b in pairs])
     for (a, b), r in zip(pairs, res):
         L = len(F.states_of(a)) + len(F.states_of(b)) + 1
-        L = min(L, 6)
+        L = min(L, 6 if a["nT"] == 2 else 5)
         ta, tb = lang_table(a, L), lang_table(b, L)
         equal = ta == tb
         ctx.count_case((json.dumps(a), json.dumps(b)), nontrivial=any(v != 0 for v in ta.values()))
@@ -171,7 +180,7 @@ def run(ctx):
             viol(ctx, f"min:{'timeout' if 'timeout' in q['err'] else 'error:' + q['err'][:30]}", f"min on an automaton {'did not terminate within 20 s' if 'timeout' in q['err'] else 'raised ' + q['err']}", {"kind": "min-error", "a": a, "error": q["err"]})
         else:
             o = q["ok"]
-            for xs, enc in zip(F.strings(2, 3), o["values"]):
+            for xs, enc in zip(F.strings(a["nT"], 3), o["values"]):
                 ref = ta.get(tuple(xs), F.wfsa_oracle(a, list(xs)))
                 v = dec_val(enc)
                 if abs(float(v) - float(ref)) > 1e-8 * max(1.0, abs(float(ref))):
